@@ -863,6 +863,7 @@ func (segstore *SegStore) checkAndRotateColFiles(streamid string, forceRotate bo
 		}
 
 		updateRecentlyRotatedSegmentFiles(segstore.SegmentKey, segstore.VirtualTableName)
+		verifhook.At("rot.metadata.begin", "segkey", segstore.SegmentKey)
 		metadata.AddSegMetaToMetadata(&segmeta)
 		verifhook.At("rot.metadata.visible", "segkey", segstore.SegmentKey)
 
